@@ -127,6 +127,13 @@ func (e *clEngine) randTick() int64 {
 	p := e.pool()
 	cur := p.GetCurrentTick()
 	var t int64
+	if len(e.pos) > 0 && e.r.Intn(4) == 0 { // abut / nest: reuse a boundary of an existing position
+		q := e.anyPos()
+		if e.r.Intn(2) == 0 {
+			return q.lower
+		}
+		return q.upper
+	}
 	switch e.r.Intn(6) {
 	case 0:
 		t = cur + int64(e.r.Intn(2001)-1000)*e.spacing
@@ -190,7 +197,12 @@ func runCL(t *testing.T, seed int64, n int, dir string) {
 		}
 		p := h.PrepareCustomConcentratedPool(e.accs[0], clDenom0, clDenom1, uint64(e.spacing), e.spf)
 		e.poolId = p.GetId()
-		o.Emit(fmt.Sprintf("clp reset %d %s", e.spacing, e.spf.BigInt()), "ok", true)
+		scale, err := h.App.ConcentratedLiquidityKeeper.VerifSpreadFactorScalingFactor(h.Ctx, e.poolId)
+		if err != nil {
+			t.Fatal(err)
+		}
+		o.Emit(fmt.Sprintf("clp reset %d %s %s", e.spacing, e.spf.BigInt(), scale.BigInt()), "ok", true)
+		o.Count("pool.scale" + scale.String()[:4])
 		o.Count(fmt.Sprintf("pool.spacing%d", e.spacing))
 		nops := 25 + r.Intn(50)
 		for i := 0; i < nops && done < n; i++ {
@@ -274,7 +286,15 @@ func (e *clEngine) step() {
 			owner = (owner + 1) % 3 // wrong owner: error path
 		}
 		liq := new(big.Int).Set(q.liq)
-		switch e.r.Intn(4) {
+		switch e.r.Intn(5) {
+		case 4: // withdraw exactly the difference to a neighbour sharing a boundary tick, so that tick's NET becomes zero while its gross stays positive
+			for _, o2 := range e.pos {
+				if o2.id != q.id && (o2.upper == q.lower || o2.lower == q.upper) && o2.liq.Cmp(q.liq) < 0 {
+					liq = new(big.Int).Sub(q.liq, o2.liq)
+					e.o.Count("withdraw.directed-net-zero")
+					break
+				}
+			}
 		case 0:
 			liq.Quo(liq, big.NewInt(int64(2+e.r.Intn(9))))
 		case 1:
